@@ -35,7 +35,7 @@ ASSUMPTIONS = ["simulated steps (mode A); resources of a step are read from the 
 
 def gen_cases(tier, seed):
     n = 40 if tier == "quick" else 800
-    cases = [{"id": f"c12-seed-{k}", "seed": seed, "scenario": k} for k in ("resources", "nested_hold", "fail_in_hold", "grand_hold")]
+    cases = [{"id": f"c12-seed-{k}", "seed": seed, "scenario": k} for k in ("resources", "nested_hold", "fail_in_hold", "grand_hold", "recycled_while_holding")]
     cases += [{"id": f"c12-{seed}-{i}", "seed": seed * 4231 + i} for i in range(n)]
     return cases
 
@@ -172,6 +172,28 @@ def scenario(name):
         items = [["static", ["src/a.txt"]],
                  ["raw", {"a": "step", "cmd": "do " + _json.dumps(x), "out": ["out/x.txt"]}]]
         return {"sources": {"src/a.txt": "a\n"}, "env": {}, "steps": {}, "plans": {".": items}}, {"njob": 4}
+    if name == "recycled_while_holding":
+        # S defines H and then amends the output of the slow step L, so S is deferred and runs a second
+        # time when L is done.  H is inside its hold all that time: it is detached when S is
+        # dispatched again and recycled unchanged when S declares it again.  H then declares X and
+        # releases; its hold counter must have survived the recycling.
+        import json as _json
+        x = _json.dumps([{"a": "read", "path": "src/a.txt"}, {"a": "write", "path": "out/x.txt"}])
+        hprog = [{"a": "hold"}, {"a": "signal", "key": "h_holding"}, {"a": "await", "key": "late_done"},
+                 {"a": "sleep", "s": 0.15},
+                 {"a": "step", "cmd": "do " + x, "inp": ["src/a.txt"], "out": ["out/x.txt"]},
+                 {"a": "release"}, {"a": "write", "path": "out/h.txt"}]
+        lprog = [{"a": "read", "path": "src/a.txt"}, {"a": "await", "key": "h_holding"}, {"a": "sleep", "s": 0.05},
+                 {"a": "write", "path": "out/late.txt"}, {"a": "signal", "key": "late_done"}]
+        sprog = [{"a": "step", "cmd": "do " + _json.dumps(hprog), "out": ["out/h.txt"]},
+                 {"a": "await", "key": "h_holding"},
+                 {"a": "amend", "inp": ["out/late.txt"]}, {"a": "read", "path": "out/late.txt"},
+                 {"a": "write", "path": "out/s.txt"}]
+        items = [["static", ["src/a.txt"]],
+                 ["raw", {"a": "step", "cmd": "do " + _json.dumps(lprog), "inp": ["src/a.txt"], "out": ["out/late.txt"]}],
+                 ["raw", {"a": "step", "cmd": "do " + _json.dumps(sprog), "out": ["out/s.txt"], "need": "PLAN"}]]
+        return {"sources": {"src/a.txt": "a\n"}, "env": {}, "steps": {}, "plans": {".": items}}, \
+            {"njob": 4, "policy": "free"}
     if name == "nested_hold":
         items = [["static", ["src/a.txt"]],
                  ["hold", [["step", "H0"], ["hold", [["step", "H1"], ["step", "H2"]]], ["step", "N0"]]],
@@ -231,12 +253,19 @@ def run_case(case):
                     mon = I.make_monitor()
                     lim = LimitMonitor(cfg, mon, vio, counters, classes)
                     mon.checkers.append(lim.hold_tracker)
-                    ctl = H.Controller(rng.choice(["serial", "serial", "jitter"]), rng.randrange(1 << 30))
+                    ctl = H.Controller(cfg.get("policy") or rng.choice(["serial", "serial", "jitter"]), rng.randrange(1 << 30))
                     b = H.run_build(cfg, ctl=ctl, monitors=[mon, lim], env=dict(cur.get("env", {})), timeout=90)
                     counters["builds"] += 1
                     counters["evaluations"] += 1
                     if b.error is not None:
                         vio("director raised or hung", str(b.error)[:600])
+                    if case.get("scenario") == "recycled_while_holding":
+                        counters["recycled_while_holding_runs"] = counters.get("recycled_while_holding_runs", 0) + 1
+                        refused = [e for e in b.events if e["type"] == "rpc_done" and not e.get("ok", True)
+                                   and e["name"] in ("release_dispatch", "hold_dispatch", "define_step")]
+                        if refused or b.returncode is None or b.returncode.value != 0:
+                            vio("request of a running step that its creator declared again is refused",
+                                f"status {b.returncode}; {[(e['name'], str(e.get('message'))[-200:]) for e in refused][:2]}")
         finally:
             os.chdir(cwd)
             shutil.rmtree(sub, ignore_errors=True)
